@@ -7,8 +7,14 @@ the bytes the writer models produce (`write_header`, then `write_clause` per cla
 document.  A corollary of C07's `cnf_parse_render`: the writers' output is the canonical layout
 (`C07.render_canonical`).  The length bound is the one of C07 (checked `usize` line / position
 arithmetic in `LineReader`).
+
+`cnf_parsed_is_wf` (converse): whatever the parser accepts up to a clean end — from ANY bytes, any
+reader state, failing sources included — is a document of `WF`; hence `cnf_parse_write_parse`:
+parse ∘ write ∘ parse = parse.  The only hypothesis on the literal type is that it is one of the
+crate's (`1 ≤ bits ≤ 64`).
 -/
 import Flussab.Props.C07
+import Flussab.Proof.CnfSound
 
 namespace Flussab.C03
 open Flussab Flussab.Cnf Flussab.Spec
@@ -34,5 +40,37 @@ example :
     (Cnf.writeDoc .gcnf (some ⟨127, 3, 3⟩) d).length < 2 ^ 64 - 1 ∧
     Cnf.writeDoc .gcnf (some ⟨127, 3, 3⟩) d =
       "p gcnf 127 3 3\n{3} 127 -127 0\n{0} 0\n{1} 1 0\n".toUTF8.toList := by decide +kernel
+
+/-- **Converse**: every document the parser returns with a clean end is in the domain `WF`
+(arbitrary input bytes, arbitrary fault flag). -/
+theorem cnf_parsed_is_wf (fmt : Format) (l : LitTy) (ignoreHeader : Bool)
+    (hl : 1 ≤ l.bits ∧ l.bits ≤ 64) (bytes : VBytes) (fault : Bool) (h : Option Header)
+    (cs : List Clause)
+    (hparse : Cnf.parseAll fmt l ignoreHeader (LR.init bytes fault) =
+      { header := h, items := cs, final := none }) :
+    WF fmt l ignoreHeader h cs :=
+  CnfP.parseAll_sound fmt l ignoreHeader hl _ h cs hparse
+
+/-- **parse ∘ write ∘ parse = parse**: re-writing what was parsed and parsing it again gives the
+same document. -/
+theorem cnf_parse_write_parse (fmt : Format) (l : LitTy) (ignoreHeader : Bool)
+    (hl : 1 ≤ l.bits ∧ l.bits ≤ 64) (bytes : VBytes) (fault : Bool) (h : Option Header)
+    (cs : List Clause)
+    (hparse : Cnf.parseAll fmt l ignoreHeader (LR.init bytes fault) =
+      { header := h, items := cs, final := none })
+    (hlen : (Cnf.writeDoc fmt h cs).length < 2 ^ 64 - 1) :
+    Cnf.parseAll fmt l ignoreHeader (LR.init (Cnf.writeDoc fmt h cs) false) =
+      Cnf.parseAll fmt l ignoreHeader (LR.init bytes fault) := by
+  rw [hparse]
+  exact cnf_roundtrip fmt l ignoreHeader h cs
+    (cnf_parsed_is_wf fmt l ignoreHeader hl bytes fault h cs hparse) hlen
+
+/-- Non-vacuity of the converse: a messy text that parses cleanly (so the hypothesis is
+satisfiable), and the document it yields. -/
+example :
+    let text := " c x\n\np cnf 3 2 \r\n1 -03\n  c y\n 2 0\n-0".toUTF8.toList
+    let r := Cnf.parseAll .cnf ⟨32⟩ false (LR.init text false)
+    r.header = some ⟨3, 2, 0⟩ ∧ r.items = [⟨0, [1, -3, 2]⟩, ⟨0, []⟩] ∧ r.final = none ∧
+    WF .cnf ⟨32⟩ false (some ⟨3, 2, 0⟩) [⟨0, [1, -3, 2]⟩, ⟨0, []⟩] := by decide +kernel
 
 end Flussab.C03
